@@ -197,14 +197,25 @@ def strip_expect(e):
 def effective_cond(term):
     """The condition a 2-way block actually branches on.  For `if (a || b)` Clang reports the whole `a || b` as the
     terminator condition of the block that evaluates only `b` (a was decided by the preceding `||` block), so the
-    effective condition is the rightmost operand of the logical operators."""
+    effective condition is the rightmost operand of the logical operators; a `!` around the logical expression
+    (BELOW_THRESHOLD is `! ABOVE_THRESHOLD`, itself `t == 0 || (t != MAX && n >= t)`) is carried onto that operand."""
     c = term.get("cond") if term else None
     if term and term.get("kind") in ("&&", "||"):
         return c
+    neg = False
     while isinstance(c, dict):
         c2 = strip_expect(c)
+        if isinstance(c2, dict) and c2.get("k") == "unop" and c2["op"] == "!":
+            inner = strip_expect(c2["e"])
+            if isinstance(inner, dict) and inner.get("k") == "binop" and inner["op"] in ("&&", "||"):
+                neg = not neg
+                c = inner
+                continue
+            break
         if isinstance(c2, dict) and c2.get("k") == "binop" and c2["op"] in ("&&", "||"):
             c = c2["r"]
             continue
         break
+    if neg and isinstance(c, dict):
+        return {"k": "unop", "op": "!", "e": c}
     return c
